@@ -61,11 +61,21 @@ func init() {
 					continue
 				}
 				if sc.Front == "grpc" {
-					real.grpcCall(real.via, sc)
+					vcc := real.via
+					if sc.Opts {
+						vcc = real.viaOpts
+					}
+					real.grpcCall(vcc, sc)
 				} else {
 					real.httpCall(sc) //nolint
 				}
 				n++
+			}
+			// the client fails first
+			for _, shape := range []string{"cs", "ss", "bidi"} {
+				real.cancelCall(real.via, shape)
+				real.cancelCall(real.viaOpts, shape)
+				n += 2
 			}
 		}
 		return n
@@ -222,6 +232,10 @@ type c10Real struct {
 	direct  *grpc.ClientConn // client -> back-end directly
 	via     *grpc.ClientConn // client -> larking
 	becc    *grpc.ClientConn
+	// the same back-end behind a mux with pass-through interceptors and a stats handler
+	frontOpts *realServer
+	viaOpts   *grpc.ClientConn
+	becc2     *grpc.ClientConn
 }
 
 func newC10Real() (*c10Real, error) {
@@ -243,7 +257,7 @@ func newC10Real() (*c10Real, error) {
 		return nil, err
 	}
 	becc := dial(bsrv.addr)
-	ctx, cancel := context.WithTimeout(context.Background(), 20*time.Second)
+	ctx, cancel := context.WithTimeout(context.Background(), 120*time.Second)
 	defer cancel()
 	if err := m.RegisterConn(ctx, becc); err != nil {
 		return nil, fmt.Errorf("RegisterConn against a real grpc-go reflection server: %w", err)
@@ -252,10 +266,27 @@ func newC10Real() (*c10Real, error) {
 	if err != nil {
 		return nil, err
 	}
-	return &c10Real{t: t, be: be, backend: bsrv, front: fsrv, direct: dial(bsrv.addr), via: dial(fsrv.addr), becc: becc}, nil
+	// a second front: the same back-end behind a mux with pass-through interceptors and a stats handler
+	mo, err := larking.NewMux(c15PassThroughOpts()...)
+	if err != nil {
+		return nil, err
+	}
+	becc2 := dial(bsrv.addr)
+	if err := mo.RegisterConn(ctx, becc2); err != nil {
+		return nil, fmt.Errorf("RegisterConn (mux with options): %w", err)
+	}
+	fsrvo, err := startFront(mo)
+	if err != nil {
+		return nil, err
+	}
+	return &c10Real{t: t, be: be, backend: bsrv, front: fsrv, direct: dial(bsrv.addr), via: dial(fsrv.addr), becc: becc,
+		frontOpts: fsrvo, viaOpts: dial(fsrvo.addr), becc2: becc2}, nil
 }
 
 func (r *c10Real) close() {
+	r.viaOpts.Close()
+	r.becc2.Close()
+	r.frontOpts.stop()
 	r.direct.Close()
 	r.via.Close()
 	r.becc.Close()
@@ -308,12 +339,16 @@ func c10MD(sc c10Script) metadata.MD {
 func (r *c10Real) grpcCall(cc *grpc.ClientConn, sc c10Script) c10Transcript {
 	r.be.set(sc)
 	var tr c10Transcript
-	ctx, cancel := context.WithTimeout(context.Background(), 15*time.Second)
+	ctx, cancel := context.WithTimeout(context.Background(), 120*time.Second)
 	defer cancel()
 	if md := c10MD(sc); md != nil {
 		ctx = metadata.NewOutgoingContext(ctx, md)
 	}
 	method := "/vs.T/" + shapeMethod[sc.Shape]
+	var copts []grpc.CallOption
+	if sc.Gzip {
+		copts = append(copts, grpc.UseCompressor("gzip"))
+	}
 	finish := func(err error) {
 		st, _ := status.FromError(err)
 		if err == io.EOF {
@@ -323,14 +358,14 @@ func (r *c10Real) grpcCall(cc *grpc.ClientConn, sc c10Script) c10Transcript {
 	}
 	if sc.Shape == "unary" {
 		reply := dynamicpb.NewMessage(r.t.rsp)
-		err := cc.Invoke(ctx, method, r.t.newReq("", []byte("msg-0"), 0), reply)
+		err := cc.Invoke(ctx, method, r.t.newReq("", []byte("msg-0"), 0), reply, copts...)
 		if err == nil {
 			tr.Replies = append(tr.Replies, string(reply.Get(r.t.rsp.Fields().ByName("b")).Bytes()))
 		}
 		finish(err)
 	} else {
 		desc := &grpc.StreamDesc{ClientStreams: sc.Shape != "ss", ServerStreams: sc.Shape != "cs"}
-		st, err := cc.NewStream(ctx, desc, method)
+		st, err := cc.NewStream(ctx, desc, method, copts...)
 		if err != nil {
 			finish(err)
 			tr.Err = "NewStream: " + err.Error()
@@ -387,6 +422,45 @@ func (r *c10Real) grpcCall(cc *grpc.ClientConn, sc c10Script) c10Transcript {
 	return tr
 }
 
+// poison sends, through cc, a gzip message that inflates to 5 MiB (above the 4 MiB default
+// receive limit of larking and of grpc-go): the call is refused - what it leaves behind in
+// larking's pools must not be visible to the calls that follow.
+func (r *c10Real) poison(cc *grpc.ClientConn) {
+	r.be.set(c10Script{Shape: "unary", K: 1})
+	ctx, cancel := context.WithTimeout(context.Background(), 120*time.Second)
+	defer cancel()
+	reply := dynamicpb.NewMessage(r.t.rsp)
+	_ = cc.Invoke(ctx, "/vs.T/Unary", r.t.newReq("", make([]byte, 5<<20), 0), reply, grpc.UseCompressor("gzip"))
+}
+
+// cancelCall: the client fails first - it opens a stream through cc, sends one message
+// (bidi: takes one reply), then cancels its context and drains. Only exercised in the
+// free-running -race pass (the pump goroutine and the forwarder both unwind).
+func (r *c10Real) cancelCall(cc *grpc.ClientConn, shape string) {
+	r.be.set(c10Script{Shape: shape, ReadAll: true, R: 1, K: 3, PingPong: shape == "bidi"})
+	ctx, cancel := context.WithCancel(context.Background())
+	defer cancel()
+	desc := &grpc.StreamDesc{ClientStreams: shape != "ss", ServerStreams: shape != "cs"}
+	st, err := cc.NewStream(ctx, desc, "/vs.T/"+shapeMethod[shape])
+	if err != nil {
+		return
+	}
+	reply := dynamicpb.NewMessage(r.t.rsp)
+	_ = st.SendMsg(r.t.newReq("", []byte("msg-0"), 0))
+	if shape == "ss" {
+		_ = st.CloseSend()
+	}
+	if shape != "cs" {
+		_ = st.RecvMsg(reply)
+	}
+	cancel()
+	for i := 0; i < 100; i++ {
+		if err := st.RecvMsg(reply); err != nil {
+			break
+		}
+	}
+}
+
 // httpCall runs script sc through larking's HTTP/JSON front with a real net/http client.
 func (r *c10Real) httpCall(sc c10Script) (c10Transcript, error) {
 	r.be.set(sc)
@@ -398,7 +472,11 @@ func (r *c10Real) httpCall(sc c10Script) (c10Transcript, error) {
 	}
 	// io.MultiReader hides the length: the body is sent chunked, as a streaming client does
 	// (with Content-Length: 0 larking builds one message from the URL alone - see DESIGN.md)
-	req, err := http.NewRequest("POST", "http://"+r.front.addr+shapeRoute[sc.Shape], io.MultiReader(&body))
+	faddr := r.front.addr
+	if sc.Opts {
+		faddr = r.frontOpts.addr
+	}
+	req, err := http.NewRequest("POST", "http://"+faddr+shapeRoute[sc.Shape], io.MultiReader(&body))
 	if err != nil {
 		return tr, err
 	}
@@ -412,7 +490,7 @@ func (r *c10Real) httpCall(sc c10Script) (c10Transcript, error) {
 			}
 		}
 	}
-	cl := &http.Client{Timeout: 15 * time.Second}
+	cl := &http.Client{Timeout: 120 * time.Second}
 	rsp, err := cl.Do(req)
 	if err != nil {
 		return tr, err
@@ -461,7 +539,14 @@ func runC10Conformance(c *Ctx) {
 		var via c10Transcript
 		direct := real.grpcCall(real.direct, sc)
 		if sc.Front == "grpc" {
-			via = real.grpcCall(real.via, sc)
+			vcc := real.via
+			if sc.Opts {
+				vcc = real.viaOpts
+			}
+			if sc.Gzip {
+				real.poison(vcc) // a refused oversized gzip message first: it must leave nothing behind
+			}
+			via = real.grpcCall(vcc, sc)
 		} else {
 			via, err = real.httpCall(sc)
 			if err != nil {
